@@ -247,7 +247,7 @@ def g_phases(ex, c, lf):
 # ---------------------------------------------------------------- condition number / growth (C12.D1, D3)
 def g_cond(ex, c, lf):
     v, E, p = lf.val, c.E, c.p
-    if 'ConditionNumber' not in v and 'PivotGrowth' not in v:
+    if 'ConditionNumber' not in v and 'PivotGrowth' not in v and v.get('info') != 3:
         return
     sel = ['Trans', 'A.Stype', 'ConditionNumber']
     con = lf.calls(p + 'gscon')
@@ -269,13 +269,13 @@ def g_cond(ex, c, lf):
         st = [e for e in lf.stores() if e['target'] == '*$%d' % c.k_info and e['rhs'] is not None and '$%d' % c.k_A in _reads(lf, e)]
         ex.check(lf, not st, 'no-warning-without-estimate', sel, 'info = n+1 may only be raised when the condition number was estimated', st[0]['line'] if st else None)
     pg = lf.calls(p + 'PivotGrowth')
-    if 'PivotGrowth' in v and c.nofact(lf) and 'info' in v and not c.ilu:
-        if v['info'] == 3:
+    if c.nofact(lf) and 'info' in v and not c.ilu:
+        if v['info'] == 3 and v.get('lwork') != -1:
             ok = len(pg) == 1 and ptr_desc(pg[0]['args'][0]) is None and pg[0]['args'][0] == 3
             ex.check(lf, len(pg) == 1 and pg[0]['args'][0] == 3 and pg[0]['args'][2:] == [('p', c.k_perm_c), ('p', c.k_L), ('p', c.k_U)], 'growth-of-leading-columns', ['info'],
                      'singular at column info: the growth factor must be computed over the leading *info columns: %sPivotGrowth(*info, AA, perm_c, L, U)' % p,
                      pg[0]['line'] if pg else None)
-        elif v['info'] == 0 and v.get('PivotGrowth') == E['YES']:
+        elif v['info'] == 0 and 'PivotGrowth' in v and v.get('PivotGrowth') == E['YES']:
             ok = len(pg) == 1 and pg[0]['args'][0] in (v.get('A.ncol'), ('path', '$%d->ncol' % c.k_A)) and pg[0]['args'][2:] == [('p', c.k_perm_c), ('p', c.k_L), ('p', c.k_U)]
             ex.check(lf, ok, 'growth-over-all-columns', ['PivotGrowth'], '%sPivotGrowth(A->ncol, AA, perm_c, L, U) must run when PivotGrowth = YES' % p, pg[0]['line'] if pg else None)
 
